@@ -101,6 +101,12 @@ def graph_task(shard, dot, part, nparts, limit, seed, names, declared,
 def stage_graph(chk, spec, cfg, names, declared, limit, need_actions=(),
                 nparts=None, all_transitions=False, tag='g'):
     """S1 + S2: model-check `cfg`, dump the graph, replay it into the code."""
+    if cfg.endswith('_deep.cfg'):
+        # the thorough configuration is checked exhaustively; the paths replayed
+        # into the code come from the quick configuration's graph (the deep
+        # graphs have millions of states: their dumps are gigabytes)
+        chk.mc(spec, cfg, timeout=7000)
+        cfg = cfg.replace('_deep.cfg', '.cfg')
     dot = os.path.join(chk.dir, f'{tag}_{cfg}.dot')
     chk.mc(spec, cfg, extra=['-dump', 'dot', dot])
     if not os.path.exists(dot):
